@@ -94,7 +94,7 @@ Section Subst.
     inversion Sz as [[Sa Sr]].
     split; [|split].
     - change (wfq (EOp op (a' :: r'))) with (forallb wfq (a' :: r') && op_ok op (a' :: r')). apply andb_true_iff. split; [apply forallb_Forall; exact A|].
-      unfold op_ok in *. rewrite Sa, Ln. rewrite (same_size_map (size a) (a :: r) (a' :: r') Sz). exact O.
+      unfold op_ok, args_ok in *. rewrite Sa, Ln. rewrite (same_size_map (size a) (a :: r) (a' :: r') Sz). exact O.
     - simpl. rewrite Sa. destruct (size a =? 0); [|reflexivity]. destruct r, r'; simpl in *; try discriminate; congruence.
     - rewrite !eval_op_node. rewrite Ev. f_equal. simpl. rewrite Sa. destruct (size a =? 0); [|reflexivity]. destruct r, r'; simpl in *; try discriminate; congruence.
   Qed.
@@ -106,16 +106,57 @@ Section Subst.
     destruct a; try discriminate. destruct (ints_of args) as [l|]; try discriminate. inversion H; subst. simpl. rewrite (IH l eq_refl). reflexivity.
   Qed.
 
-  Lemma const_op_value op w vs r : frag_op op = true -> eval_const_op op w vs = Ok r -> wrap w r = eval_op iota op w vs.
+  Lemma sar_sat w z k : 0 < w -> - 2 ^ w <= z < 2 ^ w -> w <= k -> Z.shiftr z k = Z.shiftr z w.
   Proof.
-    unfold frag_op, eval_const_op, eval_op. destruct (opk_of op); try discriminate; intros _ H.
+    intros Hw Hz Hk.
+    assert (G : forall j, w <= j -> Z.shiftr z j = if z <? 0 then -1 else 0).
+    { intros j Hj. rewrite Z.shiftr_div_pow2 by lia. assert (P : 2 ^ w <= 2 ^ j) by (apply Z.pow_le_mono_r; lia).
+      destruct (z <? 0) eqn:N; [apply Z.ltb_lt in N | apply Z.ltb_ge in N].
+      - symmetry. apply (Z.div_unique z (2 ^ j) (-1) (z + 2 ^ j)); lia.
+      - apply Z.div_small. lia. }
+    rewrite (G k Hk), (G w ltac:(lia)). reflexivity.
+  Qed.
+  Lemma sgn_bound w z : 0 < w -> - 2 ^ w <= sgn w z < 2 ^ w.
+  Proof.
+    intros Hw. unfold sgn. pose proof (Z.mod_pos_bound z (2 ^ w) ltac:(apply Z.pow_pos_nonneg; lia)) as B. fold (wrap w z) in B.
+    cbv zeta. destruct (2 * wrap w z >=? 2 ^ w); lia.
+  Qed.
+
+  Lemma const_op_value op w vs r : frag_op op = true -> 0 < w -> Forall (fun v => 0 <= v) vs -> hd 0 vs < 2 ^ w ->
+    (is_shift op = true -> List.length vs = 2%nat) -> eval_const_op op w vs = Ok r -> wrap w r = eval_op iota op w vs.
+  Proof.
+    unfold frag_op, is_shift, eval_const_op, eval_op. intros F Hw Nn Hd Ln H. destruct (opk_of op); try discriminate.
     - destruct vs as [|v l]; inversion H. cbn [fold_left]. rewrite Z.add_0_l. reflexivity.
     - destruct vs as [|v l]; inversion H. cbn [fold_left]. rewrite Z.mul_1_l. reflexivity.
     - destruct vs as [|v l]; inversion H. cbn [fold_left]. rewrite Z.lxor_0_l. reflexivity.
     - destruct vs as [|v l]; inversion H. reflexivity.
     - destruct vs as [|v l]; inversion H. cbn [fold_left]. rewrite Z.lor_0_l. reflexivity.
     - destruct vs as [|a [|b [|c l]]]; inversion H; reflexivity.
+    - specialize (Ln eq_refl). destruct vs as [|a [|c [|? ?]]]; try discriminate. destruct (mymaxuint_ok w); [|discriminate]. inversion H; subst r. clear H.
+      inversion Nn as [|? ? Pa Nn']; subst. inversion Nn' as [|? ? Pc _]; subst. cbn [hd] in Hd.
+      replace (2 ^ w - 1) with (Z.ones w) by (rewrite Z.ones_equiv; lia). rewrite Z.land_ones, Z.mod_small by lia.
+      rewrite (shiftl_sat w a (Z.min c (w + 64))) by lia. f_equal. f_equal. lia.
+    - specialize (Ln eq_refl). destruct vs as [|a [|c [|? ?]]]; try discriminate. destruct (mymaxuint_ok w); [|discriminate]. inversion H; subst r. clear H.
+      inversion Nn as [|? ? Pa Nn']; subst. inversion Nn' as [|? ? Pc _]; subst. cbn [hd] in Hd.
+      replace (2 ^ w - 1) with (Z.ones w) by (rewrite Z.ones_equiv; lia). rewrite Z.land_ones, Z.mod_small by lia.
+      replace (wrap w a) with a by (symmetry; apply Z.mod_small; lia).
+      rewrite (shiftr_sat w a (Z.min c (w + 64))) by lia. f_equal. f_equal. lia.
+    - specialize (Ln eq_refl). destruct vs as [|a [|c [|? ?]]]; try discriminate. destruct (mymaxuint_ok w); [|discriminate]. inversion H; subst r. clear H.
+      inversion Nn as [|? ? Pa Nn']; subst. inversion Nn' as [|? ? Pc _]; subst.
+      pose proof (sgn_bound w a Hw) as B. f_equal.
+      destruct (Z_le_gt_dec c w) as [L|L]; [f_equal; lia|].
+      rewrite (Z.min_r c w) by lia. apply sar_sat; lia.
   Qed.
+
+  Lemma ints_nonneg ints : forallb wfq (map (fun '(sg, w, v) => EInt sg w v) ints) = true -> Forall (fun v => 0 <= v) (map (fun '(_, _, v) => v) ints).
+  Proof.
+    intros Wl. apply forallb_Forall in Wl. induction ints as [|[[sg w] v] l IH]; cbn [map] in *; constructor; inversion Wl; subst.
+    - apply (wf_int_inv IdQ rho mu iota sg w v); assumption.
+    - apply IH; assumption.
+  Qed.
+  Lemma shift_len op n (ints : list (bool * Z * Z)) (f : bool * Z * Z -> expr) : args_ok op n (map f ints) = true ->
+    is_shift op = true -> List.length (map (fun '(_, _, v) => v) ints) = 2%nat.
+  Proof. unfold args_ok. intros A S. rewrite S in A. rewrite map_length in *. apply Nat.eqb_eq. exact A. Qed.
 
   Lemma consts_rel op args e' : wfq (EOp op args) = true -> eval_op_consts op args = inl (Ok e') ->
     wfq e' = true /\ size e' = size (EOp op args) /\ ev e' = ev (EOp op args).
@@ -138,7 +179,7 @@ Section Subst.
        destruct (wf_int IdQ rho mu iota w0 rv P0) as (A & B & Cv);
        split; [exact A|]; split; [rewrite B; symmetry; apply (size_node op); simpl; lia|];
        rewrite Cv, eval_op_node, size_node by (simpl; lia); cbn [size];
-       rewrite (const_op_value op w0 _ rv F C); f_equal;
+       rewrite (const_op_value op w0 _ rv F ltac:(lia) (ints_nonneg ((false, w0, v0) :: rest) Wl) ltac:(cbn [map hd]; apply (wf_int_inv IdQ rho mu iota _ _ _ W0)) (shift_len op _ ((false, w0, v0) :: rest) (fun '(sg, w, v) => EInt sg w v) S) C); f_equal;
        (* the values of in-range unsigned constants are their payloads *)
        clear - Wl; apply forallb_Forall in Wl;
        change (EInt false w0 v0 :: map (fun '(sg, w, v) => EInt sg w v) rest) with (map (fun '(sg, w, v) => EInt sg w v) ((false, w0, v0) :: rest)) in *;
